@@ -227,8 +227,10 @@ def run(chk: Check):
             shaped = np.repeat(shaped, 2)[::2]
         chk.count("array_shape:" + "x".join(map(str, shaped.shape)) if shaped.ndim > 1 else "array_shape:1d")
         out = get_closest(grid, shaped)
+        gc_case = {"case": {"grid": [f2h(g) for g in grid], "values": [f2h(v) for v in vals], "shape": list(shaped.shape),
+                            "column_major": bool(shaped.ndim > 1 and not shaped.flags["C_CONTIGUOUS"]), "strided": how == "strided"}}
         if out.shape != shaped.shape:
-            chk.fail(f"get_closest changed the array shape {shaped.shape} -> {out.shape}", {"case": {"grid": [f2h(g) for g in grid], "values": [f2h(v) for v in vals]}})
+            chk.fail(f"get_closest changed the array shape {shaped.shape} -> {out.shape}", gc_case)
         out = np.asarray(out).reshape(-1)
         inside = [v for v in vals.tolist() if grid[0] < v < grid[-1] and v not in set(grid.tolist())]
         nontriv = len(grid) >= 2 and bool(inside)
@@ -237,7 +239,7 @@ def run(chk: Check):
                   "out_head": out[:4].tolist()})
         errs = oracle_closest(grid, vals, out) + oracle_idem(get_closest, grid, out)
         for e in errs[:3]:
-            chk.fail("get_closest: " + e, {"case": {"grid": [f2h(g) for g in grid], "values": [f2h(v) for v in vals]}})
+            chk.fail("get_closest" + (f" on a {'column-major ' if gc_case['case']['column_major'] else ''}array of shape {tuple(shaped.shape)}" if shaped.ndim > 1 else "") + ": " + e, gc_case)
         if kind == "closest":
             impl = " ".join(f2h(x) for x in out.tolist())
         else:
@@ -266,7 +268,12 @@ def replay(path: Path) -> int:
         if not c:
             continue
         grid = np.array([h2f(h) for h in c["grid"]]); vals = np.array([h2f(h) for h in c["values"]])
-        out = get_closest(grid, vals.copy())
+        shaped = vals.copy().reshape(c.get("shape", [len(vals)]))
+        if c.get("column_major"):
+            shaped = np.asfortranarray(shaped)
+        if c.get("strided"):
+            shaped = np.repeat(shaped, 2)[::2]
+        out = np.asarray(get_closest(grid, shaped)).reshape(-1)
         errs = oracle_closest(grid, vals, out)
         print("REPLAY", fi["what"][:100], "->", "still fails" if errs else "passes now")
         bad += bool(errs)
